@@ -591,6 +591,44 @@ def _first_index_is_zero(t):
     return isinstance(first, ast.Constant) and first.value == 0
 
 
+def rule_kernel_dtype(ctx):
+    r = RuleResult('C02.dtype-kernel', 'a kernel with two coefficient operands that computes into a temporary and copies it to `out` allocates the '
+                                       'temporary like `out` (the caller promotes the dtype of out over both operands), not like one operand')
+    m = ctx.model
+    ci = m.cls('RawAlgorithmsMixIn')
+    n = 0
+    for name, fi in sorted(ci.methods.items()):
+        data_params = [p for p in fi.value_params() if p.endswith('_data')]
+        if 'out' not in fi.params or len(data_params) < 2 or name.startswith('_pb_') or name.endswith('_pullback'):
+            continue
+        mandatory = any(isinstance(n, ast.If) and norm(n.test) == 'out is None' and any(isinstance(b, ast.Raise) for b in n.body)
+                        for n in walk_no_nested(fi.node))
+        if not mandatory:
+            continue        # with out=None the kernel returns its own buffer; nothing is copied into a promoted array
+        copies = [st for st in walk_no_nested(fi.node) if isinstance(st, ast.Assign) and len(st.targets) == 1
+                  and isinstance(st.targets[0], ast.Subscript) and norm(st.targets[0].value) == 'out' and isinstance(st.value, ast.Subscript)
+                  and isinstance(st.value.value, ast.Name)]
+        for cp in copies:
+            tmp = cp.value.value.id
+            allocs = [st for st in walk_no_nested(fi.node) if isinstance(st, ast.Assign) and len(st.targets) == 1
+                      and isinstance(st.targets[0], ast.Name) and st.targets[0].id == tmp and isinstance(st.value, ast.Call)
+                      and (dotted_name(st.value.func) or '').split('.')[-1] in ('empty_like', 'zeros_like', 'zeros', 'empty')]
+            for a in allocs:
+                n += 1
+                src, how = _dtype_sources(fi, a.value)
+                src = src or set()
+                if 'out' in src or len(set(data_params) & src) >= 2:
+                    r.ok(construct=name + ':' + tmp, nontrivial=True, sample='%s: `%s` then `%s`' % (name, norm(a), norm(cp)))
+                elif set(data_params) & src:
+                    r.bad(Finding('C02.dtype-kernel', _f(fi), tmp + ':' + norm(a), '%s: the work buffer `%s` takes its dtype from operand %s only, although the '
+                                  'result is copied into the dtype-promoted `out`: a wider second operand (complex, float vs int) is cast down '
+                                  'inside the recurrence' % (fi.qualname, norm(a), sorted(set(data_params) & src)), fi.file, a.lineno))
+                else:
+                    r.ok(construct=name + ':' + tmp)
+    r.floor = 1
+    return r
+
+
 def rule_reflect(ctx):
     r = RuleResult('C02.reflect', 'reflected operators delegate to the binary form with the right algebra: c+x -> x+c, c*x -> x*c, '
                                   'c-x -> (-x)+c, c/x -> lift(c)/x with the constant lifted through __add__ (dtype promotion, UTPM-aware '
@@ -712,9 +750,13 @@ def rule_linalg_kinds(ctx):
                 okw = [k.value for k in c.keywords if k.arg == 'out']
                 if not okw or norm(okw[0]) != 'out.data':
                     probs.append('kernel output is not out.data')
-            txt = ' ; '.join(norm(s) for s in body)
-            if name in ('dot', 'solve') and 'numpy.promote_types' not in txt:
-                probs.append('output dtype is not promoted over both operands')
+            if name in ('dot', 'solve'):
+                allocs = [n for s_ in body for n in ast.walk(s_) if isinstance(n, ast.Call) and (dotted_name(n.func) or '').split('.')[-1] in ('__zeros__', 'zeros', 'empty')]
+                for a in allocs:
+                    src, how = _dtype_sources(fi, a)
+                    if src is None or not ({p1} & src and {p2} & src):
+                        probs.append('the dtype of the output `%s` does not derive from both operands (%s): the wider operand is cast down'
+                                     % (norm(a)[:70], sorted((src or set()) & {p1, p2})))
             if probs:
                 for pm in probs:
                     r.bad(Finding('C07.kinds', _f(fi), '%s:%s:%s' % (name, ''.join(kind), pm[:40]), 'UTPM.%s %s: %s' % (name, kind, pm), fi.file, body[0].lineno))
@@ -751,6 +793,43 @@ def _operand_kinds(test, p1, p2):
     if a is None or b is None:
         return None
     return (a, b)
+
+
+SLICE_OPS = {'_dot': {'dot'}, '_dot_non_UTPM_x': {'dot'}, '_dot_non_UTPM_y': {'dot'}, '_outer': {'outer'},
+             '_outer_non_utpm_x': {'outer'}, '_outer_non_utpm_y': {'outer'}, '_inv': {'inv', 'dot'}, '_solve': {'solve', 'dot'},
+             '_solve_non_UTPM_A': {'solve'}, '_solve_non_UTPM_x': {'solve', 'dot'}}
+
+
+def rule_slice_ops(ctx):
+    r = RuleResult('C07.op', 'the NumPy function a linear-algebra kernel _NAME* applies to coefficient slices is the one called NAME '
+                             '(numpy.dot / outer / linalg.inv / linalg.solve, plus numpy.dot inside the inv/solve recurrences): e.g. matmul '
+                             'differs from dot for N-D operands')
+    ci = ctx.model.cls('RawAlgorithmsMixIn')
+    for k, allowed in sorted(SLICE_OPS.items()):
+        fi = ci.methods.get(k)
+        if fi is None:
+            r.unknown(ALGO + ':' + k, 'kernel vanished')
+            continue
+        used = {}
+        for c in walk_no_nested(fi.node):
+            if isinstance(c, ast.Call):
+                d = dotted_name(c.func) or ''
+                if d.split('.')[0] in ('numpy', 'scipy') and any(isinstance(a, ast.Subscript) or isinstance(a, ast.Name) and a.id in ('tmp',) for a in c.args):
+                    last = d.split('.')[-1]
+                    if last in ('shape', 'zeros', 'promote_types', 'add', 'zeros_like'):
+                        continue
+                    used.setdefault(last, c)
+        bad = {n: c for n, c in used.items() if n not in allowed}
+        if bad:
+            for n, c in bad.items():
+                r.bad(Finding('C07.op', _f(fi), n, '%s applies numpy function `%s` to coefficient slices (`%s`), expected %s'
+                              % (fi.qualname, n, norm(c)[:70], sorted(allowed)), fi.file, c.lineno))
+        elif not used:
+            r.unknown(fi.site(), 'no NumPy slice operation found in kernel')
+        else:
+            r.ok(construct=k, sample='%s uses %s on slices' % (k, sorted(used)))
+    r.floor = 10
+    return r
 
 
 def rule_compound(ctx):
